@@ -145,6 +145,8 @@ def check(case):
                          tolerance=tol, state=case["state"])
                 return res
     res.label("what:" + case["what"], "method:" + method, *["type:" + t for t in sorted({rx["type"] for rx in sp["reactions"]})])
+    if any(rx.get("signed") for rx in sp["reactions"]):
+        res.label("rate_that_changes_sign")
     res.label("err/bound<0.01" if worst < 0.01 else ("err/bound<0.3" if worst < 0.3 else "err/bound>=0.3"))
     asym = case["what"] == "jacobian" and n >= 2 and not np.allclose(J, J.T)
     if asym:
@@ -171,6 +173,14 @@ def cases(draw):
             rx["pd"]["k"] = b.value_entry(gen.logfl(0.1, 10))
             rx["pd"]["K"] = b.value_entry(gen.logfl(0.5, 10))
             rx["pd"]["n"] = b.value_entry(st.one_of(st.sampled_from([1.0, 2.0, 3.0]), gen.nice(1.0, 3.0)))
+        elif draw(st.integers(0, 2)) == 0:
+            # a smooth rate that takes either sign (lumped reversible law): its derivatives are as well defined as any
+            a, c = draw(st.sampled_from(species)), draw(st.sampled_from(species))
+            kf = gen.sym(b.new_param(draw(gen.logfl(0.1, 10))))
+            kr = gen.sym(b.new_param(draw(gen.logfl(0.1, 10))))
+            back = gen.sym(c) if c != a else ["mul", gen.sym(a), gen.sym(a)]
+            rx = gen.general([a], prods, ["sub", ["mul", kf, gen.sym(a)], ["mul", kr, back]])
+            rx["signed"] = True
         else:
             rx = gen.general(draw(st.lists(st.sampled_from(species), max_size=2)), prods,
                              gen.positive_tree(b, species, smooth=True))
